@@ -73,6 +73,8 @@ fn execute_subgraph<'i>(
         }
         Err(e) if e.is_catchable() => {
             exec_ctx.make_subgraph_incomplete();
+            // the error stops bubbling here, so a later failure has to be able to set :error: again
+            exec_ctx.error_descriptor.enable_error_setting();
             trace_to_exec_err!(trace_ctx.meet_par_subgraph_end(subgraph_type), par)?;
             SubgraphResult::Failed(e)
         }
